@@ -315,6 +315,30 @@ class Gen:
             ax[i] = r.uniform(-0.5, 0.5) if c in ("move", "rapid") and r.random() < 0.5 else r.uniform(0, 4)
         return {"call": c, "ax": ax}
 
+    def targeted(self):
+        """A call aimed at a bound that is in force (added after seeds C03g / C05g): the limit itself, the value just beyond
+        it, a value far outside -- through every door that leads to that bound (setter, wait halt with S or R in either
+        letter case, tool power, feed rate)."""
+        r = self.r
+        names = [n for n in self.bounds if n != "axes" and n != "tool-number"]
+        if not names:
+            return self.set_bounds()
+        name = r.choice(sorted(names))
+        lo, hi = self.bounds[name]
+        v = r.choice([lo, hi, hi + self.step, hi + 100.0, math.nextafter(hi, math.inf), (lo + hi) / 2 if self.exact is False else hi,
+                      lo - self.step if lo > 0 else hi + 2 * self.step])
+        if name.endswith("-temperature"):
+            kind = name[:-12]
+            if r.random() < 0.5:
+                return {"call": "set_%s_temperature" % kind, "val": v}
+            d = {"call": "halt", "mode": "wait-for-" + kind, r.choice(["S", "R"]): v}
+            if r.random() < 0.5:
+                d["lower"] = True
+            return d
+        if name == "tool-power":
+            return {"call": "set_tool_power", "val": v}
+        return {"call": "set_feed_rate", "val": v}
+
     REPEATABLE = {"move", "rapid", "move_absolute", "rapid_absolute", "set_axis", "probe", "auto_home", "set_feed_rate",
                   "set_tool_power", "set_bed_temperature", "sleep", "set_fan_speed", "query", "comment", "set_plane"}
 
@@ -346,6 +370,8 @@ class Gen:
             if x < 0.15 and self.dp != 0:        # (added after seed C03d) a hook that returns a new dict with F and S tripled
                 self.scaled = not getattr(self, "scaled", False)
                 return {"call": "add_scale_hook" if self.scaled else "remove_scale_hook"}
+            if x < 0.23:
+                return self.targeted()
             return self.motion() if x < 0.6 else (self.interlock() if x < 0.8 else self.modal())
         if p == "hooks":
             if not self.exact and x < 0.15:      # interpolated vertices are not on the exact grid
@@ -356,6 +382,8 @@ class Gen:
         # mixed
         if x < 0.06:
             return self.set_bounds()
+        if x < 0.13:
+            return self.targeted()
         if x < 0.45:
             return self.motion()
         if x < 0.75:
